@@ -94,7 +94,7 @@ def main(tier, replay):
         print('\n'.join(l for l in p['lines'] if l[:2] in ('MB', 'MA', 'E ', 'EN')))
         sys.exit(0)
     base = chk.seed * 1000000 + 4242
-    nrand = 2500 if tier == 'quick' else 20000
+    nrand = 5000 if tier == 'quick' else 30000
     cases = [('r%d' % i, 'rand', base + i, ('lua', 'promela', 'lua')[i % 3], None) for i in range(nrand)]
     cases += [('n%d' % i, 'rand', base + 700000 + i, 'null', None) for i in range(nrand // 4)]
     fam = list(C.family_E(2, 2)) if tier == 'quick' else list(C.family_E(3, 2))
